@@ -74,6 +74,8 @@ fn main() {
         i += 1;
     }
 
+    // strategies are built without a context: tier-dependent generator bounds read this
+    std::env::set_var("VERIF_TIER_HINT", tier.as_str());
     kit::refhash::self_test();
     kit::runner::install_panic_hook();
 
@@ -100,8 +102,8 @@ fn main() {
         let partial_out = partial_out.clone();
         std::thread::spawn(move || loop {
             std::thread::sleep(std::time::Duration::from_secs(5));
-            if let Some((sub, case, secs)) = kit::runner::overdue_case(limit) {
-                on_overdue(&prop_id, tier, seed, &sub, case, secs, limit, partial_out.as_deref());
+            if let Some((sub, case, secs, applied)) = kit::runner::overdue_case(limit) {
+                on_overdue(&prop_id, tier, seed, &sub, case, secs, applied, partial_out.as_deref());
             }
         });
     }
